@@ -31,7 +31,7 @@ HOPS = {'hashjoin': 'join', 'hashleftjoin': 'leftjoin', 'hashrightjoin': 'rightj
 LOOKUPS = ['lookup', 'lookupone', 'dictlookup', 'dictlookupone', 'recordlookup', 'recordlookupone']
 REQUIRED = (['op:' + o for o in HOPS] + ['op:' + o for o in LOOKUPS] +
             ['build-side-duplicates', 'build-side-empty', 'none-key-both-sides', 'pass2-served-from-cached-lookup',
-             'pass2-cache-off-reflects-edit', 'strict-raised', 'strict-not-raised', 'prefilled-dictionary', 'copying-dictionary', 'lookup-value-by-index-0'])
+             'pass2-cache-off-reflects-edit', 'pass3-cache-off-reflects-header-edit', 'inputs-are-pass-through-views', 'strict-raised', 'strict-not-raised', 'prefilled-dictionary', 'copying-dictionary', 'lookup-value-by-index-0'])
 
 KPOOL = [None, 1, 1.0, True, 2, 'a', b'a', 'b', (1, 2), gen.D(2020, 1, 1), 0, False, '', ()]
 
@@ -291,6 +291,12 @@ def _judge_join(case, ctx):
     # (a)+(b)+(c): hash operator vs reference sequence
     bsrc = probes.CountingSource(build)
     a, b = (left, bsrc) if op != 'hashrightjoin' else (bsrc, right)
+    # the inputs may themselves be views that hand every row on as it is (ragged rows stay ragged)
+    form = int(util.fp(case)[4:6], 16) % 8
+    if form < 3:
+        passthrough = [petl.wrap, lambda t: petl.stack(t, pad=False, trim=False), lambda t: petl.rowslice(t, None)][form]
+        a, b = passthrough(a), passthrough(b)
+        ctx.seen('inputs-are-pass-through-views')
     view = getattr(petl, op)(a, b, **hkw)
     got1 = util.attempt_rows(lambda: view)
     v = _compare(got1, exp_hdr, groups, 'pass1')
@@ -332,6 +338,24 @@ def _judge_join(case, ctx):
             out.append(v)
         else:
             ctx.seen('pass2-cache-off-reflects-edit')
+            # then the build side's *header* changes too: a non-key field is renamed and (keys given by name) the columns rotate
+            bk_now = gen.resolve_key(build[0], bkey)
+            nonkey = [j for j in range(len(build[0])) if j not in bk_now]
+            by_index = any(isinstance(x, int) and not isinstance(x, bool) for x in (list(bkey) if isinstance(bkey, (list, tuple)) else [bkey]))
+            if nonkey and all(len(r) == len(build[0]) for r in build[1:]):
+                build[0] = list(build[0])
+                build[0][nonkey[-1]] = 'zz_renamed'
+                if not by_index and len(build[0]) > 1:
+                    for i_ in range(len(build)):
+                        build[i_] = list(build[i_][1:]) + [build[i_][0]]
+                exp_hdr3, groups3 = _ref_sequence(op, left, right, lkey, rkey, missing, case['lprefix'], case['rprefix'])
+                got4 = util.attempt_rows(lambda: view)
+                v = _compare(got4, exp_hdr3, groups3, 'pass-after-header-edit')
+                if v:
+                    v['kind'] = 'cache-off-pass-does-not-reflect-header-edit:' + v['kind']
+                    out.append(v)
+                else:
+                    ctx.seen('pass3-cache-off-reflects-header-edit')
     return out
 
 
